@@ -583,6 +583,11 @@ func (s *Sim) newConn(k int) *Conn {
 	c := &Conn{s: s, k: k, dropped: map[int]bool{}}
 	c.cond = sync.NewCond(&c.mu)
 	s.conns[k-1] = c
+	if s.sc.Cfg.EarlyConnAck {
+		// a peer that greets with an accepting CONNACK before it has read
+		// anything: the bytes are readable the moment the reader starts
+		c.rbuf = append(c.rbuf, EncodeB2C(&Pkt{Type: TConnAck})...)
+	}
 	return c
 }
 
